@@ -227,6 +227,13 @@ func (e *Engine) mergeStates(orig, a, b *State, c *Term, J *ssa.BasicBlock) *Sta
 	}
 	for i := range fa.regs {
 		if fa.regs[i] == nil || fb.regs[i] == nil {
+			if (fa.regs[i] == nil) != (fb.regs[i] == nil) && (J == nil || fa.fi.defBlk[i] == nil || fa.fi.defBlk[i].Dominates(J)) {
+				// set on one side only although its definition dominates the join (or the join is a return)
+				if J == nil {
+					e.lastAbort = "structural: register defined on one side only"
+					return nil
+				}
+			}
 			// defined on one side only: an SSA value local to the region, dead after the join
 			if fa.regs[i] == nil {
 				fa.regs[i] = fb.regs[i]
@@ -237,11 +244,8 @@ func (e *Engine) mergeStates(orig, a, b *State, c *Term, J *ssa.BasicBlock) *Sta
 		if !ok {
 			// region-local pointers etc. that differ are dead after the join as well if neither side's
 			// definition dominates the join; keep a's (a use would have to go through a phi, merged above)
-			if !e.definedBefore(fa, i, orig) {
-				continue
-			}
 			if J != nil && fa.fi.defBlk[i] != nil && !fa.fi.defBlk[i].Dominates(J) {
-				continue // a stale value of an earlier loop iteration; no use at or after the join can see it
+				continue // defined in a block that does not dominate the join: no use at or after the join can see it
 			}
 			e.lastAbort = "structural#7"
 			return nil
